@@ -385,6 +385,22 @@ def run(ctx):
         if bad and reported < 16 and bad[:30] not in seen:
             seen.add(bad[:30]); reported += 1
             ctx.violation('independent dissector: ' + bad, '=== replay\n' + '\n'.join(lines) + '\n--- ' + bad + '\n--- C++ output\n' + '\n'.join(l[:300] for l in lh[-2:]) + '\n')
+    # (9) the 802.3 length field counts the octets behind the MAC header, whatever their number (1 .. beyond 1500)
+    ds = []
+    for n_ in [1, 3, 38, 43, 46, 100, 1496, 1497, 1498, 1500, 1503, 2000][:(12 if not quick else 12)]:
+        ds.append(('d%d' % n_, ['new Dot3', 'push LLC', 'raw x' + bytes(rng.randrange(256) for _ in range(n_)).hex(), 'ser'], n_))
+    dh = C.run_harness('h_pkt', [(a_, b_) for a_, b_, _ in ds])
+    ctx.cov['evaluations'] += len(ds)
+    for sid, lines, n_ in ds:
+        lh = [l for l in dh.get(sid, []) if not l.startswith('!~')]
+        if lh and lh[-1].startswith('S '):
+            y = bytes.fromhex(lh[-1].split()[2][1:])
+            lf = _st.unpack('>H', y[12:14])[0]
+            # (frames shorter than the Ethernet minimum are zero-padded: the field still counts the LLC header + payload)
+            if lf != min(len(y) - 14, 3 + n_) and lf != len(y) - 14:
+                ctx.violation('independent dissector: Dot3 length field %d, %d octets follow the MAC header (LLC + %d payload octets)' % (lf, len(y) - 14, n_),
+                              '=== replay\n' + '\n'.join(l[:200] for l in lines) + '\n--- C++ output\n' + lh[-1][:200] + '\n')
+                break
     ctx.cov['distinct_nontrivial'] = len(nontriv)
     ctx.cov['traces_validated_against_impl'] = len(sums)
     ctx.cov['rule'] = ('(1) byte strings aimed at the folding boundaries (all-ones, alternating, odd lengths) through Utils::sum_range / crc32 against the model and independent references; '
